@@ -2,7 +2,7 @@
    reports where pkg/build/sbom.go takes the inputs it hands to the SBOM generator
    from.  Generated/C11Prov.v is written in these terms; Model/SbomProv.v
    interprets them.  Stdlib only. *)
-From Coq Require Import String.
+From Coq Require Import String NArith.
 
 Inductive prov : Type :=
 | PManifestLayers       (* <image>.Manifest().Layers, assigned unchanged *)
@@ -20,3 +20,9 @@ Inductive sort_order : Type :=
 | SortByArchStringAsc   (* sort.Slice(archs, archs[i].String() < archs[j].String()) *)
 | SortByArchStringDesc
 | SortOther (what : string).
+
+(* what Generate does with the id it minted for an installed apk before it appends the element *)
+Inductive id_policy : Type :=
+| IdAsIs                     (* nothing (the code before fix 7c2586e) *)
+| IdNumbered (first : N)     (* while a package of another name or version has the id: <id>-<first>, <id>-<first+1>, ... *)
+| IdOther (what : string).
